@@ -31,7 +31,21 @@ def main():
                 print("razor catalogue entry off:", key, a, b, float(r))
                 sys.exit(1)
             n += 1
-    print(f"razor catalogue ok ({n} pairs)")
+    # harness/end_pairs.json: colours within 5e-5 of a threshold against pure white / black (tools/gen_end_pairs.py)
+    ends = json.load(open(os.path.join(here, "..", "harness", "end_pairs.json")))
+    m = 0
+    for key, cols in ends.items():
+        side, t = key.split("_")
+        t = Fraction(t)
+        other = lum((255, 255, 255)) if side == "white" else lum((0, 0, 0))
+        for c in cols:
+            lc = lum(c)
+            r = (max(lc, other) + Fraction(1, 20)) / (min(lc, other) + Fraction(1, 20))
+            if abs(r - t) > Fraction(6, 10 ** 5):
+                print("end-pair catalogue entry off:", key, c, float(r))
+                sys.exit(1)
+            m += 1
+    print(f"razor catalogue ok ({n} pairs); end-pair catalogue ok ({m} colours)")
 
 
 if __name__ == "__main__":
